@@ -769,6 +769,11 @@ pub enum WriteError {
         #[snafu(backtrace)]
         source: dicom_parser::dataset::write::Error,
     },
+    #[snafu(display("Could not write the end of the adapted data set"))]
+    WriteDataSetEnd {
+        backtrace: Backtrace,
+        source: std::io::Error,
+    },
     #[snafu(display("Unrecognized transfer syntax `{uid}`"))]
     WriteUnrecognizedTransferSyntax { uid: String, backtrace: Backtrace },
     #[snafu(display("Unsupported transfer syntax `{uid}` ({name})"))]
@@ -1015,7 +1020,7 @@ where
     /// with the right transfer syntax.
     /// Automatically retrieves a data set adapter if required and available,
     /// returns an error if the transfer syntax is not supported for data set writing.
-    fn write_dataset_impl(&self, to: impl Write) -> Result<(), WriteError> {
+    fn write_dataset_impl<W: Write>(&self, mut to: BufWriter<W>) -> Result<(), WriteError> {
         let ts_uid = self.meta.transfer_syntax();
         // prepare encoder
         let ts = if let Some(ts) = TransferSyntaxRegistry.get(ts_uid) {
@@ -1028,16 +1033,25 @@ where
         };
         match ts.codec() {
             Codec::Dataset(Some(adapter)) => {
-                let adapter = adapter.adapt_writer(Box::new(to));
-                let mut dset_writer =
-                    DataSetWriter::with_ts(adapter, ts).context(CreatePrinterSnafu)?;
+                {
+                    let adapter = adapter.adapt_writer(Box::new(&mut to));
+                    let mut dset_writer =
+                        DataSetWriter::with_ts(adapter, ts).context(CreatePrinterSnafu)?;
 
-                // write object
-                dset_writer
-                    .write_sequence((&self.obj).into_tokens())
-                    .context(PrintDataSetSnafu)?;
+                    // write object
+                    dset_writer
+                        .write_sequence((&self.obj).into_tokens())
+                        .context(PrintDataSetSnafu)?;
 
-                dset_writer.flush().context(PrintDataSetSnafu)?;
+                    dset_writer.flush().context(PrintDataSetSnafu)?;
+                }
+
+                // the adapter may only emit its last bytes when dropped
+                // (such as the final block of a deflated stream),
+                // where I/O errors cannot be reported:
+                // these bytes are now in the buffer of `to`,
+                // so flush it here and report any error
+                to.flush().context(WriteDataSetEndSnafu)?;
 
                 Ok(())
             }
